@@ -635,6 +635,13 @@ def split_rule(repo, rep):
 
 
 def run(repo, rep, tier):
+    rep.rule("R-C09-9", "no numeric control parameter of the rule-based splits is defaulted with `p or <non-zero constant>` (a caller's 0 - no bin is wind sea, no "
+                        "tolerance - would be replaced)")
+    from .round7 import falsy_zero_defaulting, result_depends_on
+    falsy_zero_defaulting(repo, rep, "R-C09-9", ("wavespectra.partition.", "wavespectra.specarray", "wavespectra.core.utils"), floor=40)
+    rep.rule("R-C09-10", "split(): with frequency AND direction limits given the result is computed from all four limits (each step continues from the result "
+                         "of the previous one)")
+    result_depends_on(repo, rep, "R-C09-10", "wavespectra.specarray.SpecArray.split", ("fmin", "fmax", "dmin", "dmax"), "band split")
     rep.rule("R-C09-8", "(shared with C01) the celerity the wave-age rule compares with the wind is the linear-dispersion celerity at the given depth for EVERY depth "
                         "(deep-water closed form only without a depth): a shortcut inside the finite-depth branch moves bins across the wind-sea / swell boundary")
     from .c01 import closed_forms as _cf
